@@ -39,10 +39,14 @@ fn main() {
     let args: Vec<String> = std::env::args().skip(1).collect();
     match args.first().map(|s| s.as_str()) {
         Some("irtest") => irtest(&args[1..]),
+        Some("C01") => std::process::exit(props::c01::run(&report::parse_args(&args[1..]), "C01")),
+        Some("C03") => std::process::exit(props::c01::run(&report::parse_args(&args[1..]), "C03")),
+        Some("C04") => std::process::exit(props::c04::run(&report::parse_args(&args[1..]))),
         Some("C06") => std::process::exit(props::c06::run(&report::parse_args(&args[1..]))),
         Some("C07") => std::process::exit(props::c07::run(&report::parse_args(&args[1..]))),
         Some("C17") => std::process::exit(props::c17::run(&report::parse_args(&args[1..]))),
         Some("--c17-worker") => props::c17::worker(&args[1..]),
+        Some("C10") => std::process::exit(props::c10::run(&report::parse_args(&args[1..]))),
         Some("C13") => std::process::exit(props::c13::run(&report::parse_args(&args[1..]))),
         _ => {
             eprintln!("usage: vdrive <cmd> ..");
